@@ -263,7 +263,7 @@ PROPS = {
                                  'uninterpreted function of the instant (so no proof can cancel it)',
                                  'A3: float timestamps are exact to the whole second'],
                     extra=lambda tier, rng: __import__('props.bounded', fromlist=['x']).time_zones('C15', tier, rng)),
-    'C03': PropSpec('C03', contracts=_c03(), lemmas=[L + 'c03_roundtrip'], floor=1000,
+    'C03': PropSpec('C03', contracts=_c03(), lemmas=[L + 'c03_roundtrip'], ground=['spec.container-round-trip'], floor=1000,
                     assumptions=['containers: the composition dec(enc(d)) == norm_value(d) of the verified encoder and decoder '
                                  'contracts is a specification-level induction, taken as an axiom in the lemma and exercised by the '
                                  'bounded stand-in; scalars are proved outright',
@@ -280,20 +280,23 @@ PROPS = {
                                  'order independence: the specification encodes dict_sorted(d), which by A4 depends on the '
                                  'contents only; non-mutation: a write to a caller-owned object fails the modifies-nothing obligation'],
                     extra=lambda tier, rng: __import__('props.bounded', fromlist=['x']).table_order('C12', tier, rng)),
-    'C02': PropSpec('C02', contracts=_c02(), lemmas=[L + 'c02_roundtrip', L + 'c02_reencode'], floor=2000,
+    'C02': PropSpec('C02', contracts=_c02(), lemmas=[L + 'c02_roundtrip', L + 'c02_reencode'],
+                    ground=['spec.container-round-trip'], floor=2000,
                     assumptions=['header tables: dec_table(enc_table(d)) == norm_value(d) and enc_table(norm_value(d)) == enc_table(d) (decided in the C03 cone)',
                                  'timestamps: dt_seconds / dt_of_seconds are the whole-second UTC reading (encode.timestamp and decode.timestamp enter through assumed contracts; C15)',
                                  'content headers with three or more flag words are outside the grammar clause (no properties are defined there)']),
     'C08': PropSpec('C08', contracts=_c08(), floor=2000,
                     assumptions=['I6: a decoding step is one loop iteration or one call of a decode/unmarshal function; '
                                  'wall-clock time and resident memory are not objects a contract can mention',
-                                 'loops over the concrete argument / property lists terminate by construction (unrolled or cut)']),
+                                 'loops over the concrete argument / property lists terminate by construction (unrolled or cut)'],
+                    extra=lambda tier, rng: __import__('props.bounded', fromlist=['x']).decode_budget('C08', tier, rng)),
     'C19': PropSpec('C19', contracts=_c19(), floor=1000,
                     extra=lambda tier, rng: __import__('props.bounded', fromlist=['x']).mapping_protocol('C19', tier, rng)),
     'C13': PropSpec('C13', contracts=_c13(), ground=['C13.name-character-class'], floor=800,
                     assumptions=['I5: typed domains; None in a validated field is outside the domain (validation skips None by design)']),
     'C04': PropSpec('C04', contracts=_c04(), lemmas=[], ground=['C18.heartbeat-constant'], floor=2000),
-    'C01': PropSpec('C01', contracts=_c01(), lemmas=_names()[2].names('roundtrip'), floor=3000),
+    'C01': PropSpec('C01', contracts=_c01(), lemmas=_names()[2].names('roundtrip'), ground=['spec.container-round-trip'],
+                    floor=3000),
     'C05': PropSpec('C05', contracts=_c05(), floor=1500),
     'C09': PropSpec('C09', contracts=_c09(), floor=1000),
     'C06': PropSpec('C06', contracts=FRAME_ENV + [CHN + '__init__', (FRM + '_unmarshal_header_frame', {'content-header'}), (FRM + 'unmarshal', UNMARSHAL_RETURNS | {'bad-frame-end', 'heartbeat-incomplete-or-bad-end'}), FRM + 'unmarshal(env)'], lemmas=[L + 'c06_trailing_bytes'], floor=200,
@@ -318,3 +321,4 @@ PROPS = {
 
 from props import ground as _ground_units  # noqa: E402,F401  (registers the ground tables)
 from props import selfcheck as _selfcheck  # noqa: E402,F401
+from props import speclemmas as _speclemmas  # noqa: E402,F401
